@@ -63,7 +63,7 @@ def _snap_shard(args):
         if tr is None:
             continue
         traces.append(tr)
-        scripts[tid] = {'driver': 'snapshot', 'kind': kind, 'idx': idx, 'variant': v, 'seed': seed, 'q': q, 'src': src}
+        scripts[tid] = {'driver': 'snapshot', 'tid': tid, 'kind': kind, 'idx': idx, 'variant': v, 'seed': seed, 'q': q, 'src': src}
     return L.batch(traces), scripts
 
 
@@ -228,7 +228,7 @@ def run(ctx):
     os.environ.setdefault('JAVA_TOOL_OPTIONS', '-XX:ParallelGCThreads=2')  # many JVMs side by side (trace validation)
     q_fresh = {'random': 20, 'inner': 2, 'spans': 20, 'gaps': 20} if quick else \
               {'random': 500, 'inner': 6, 'spans': None, 'gaps': None}
-    q_hist = {'random': 6, 'inner': 1, 'spans': 8, 'gaps': 6} if quick else {'random': 40, 'inner': 2, 'spans': 40, 'gaps': 40}
+    q_hist = {'random': 6, 'inner': 1, 'spans': 8, 'gaps': 6} if quick else {'random': 20, 'inner': 2, 'spans': 20, 'gaps': 20}
     rng = random.Random(ctx.seed * 1000003 + 6)
     items = []
     tid = 0
@@ -245,7 +245,7 @@ def run(ctx):
     nsh = 14
     res = _pool_map(_snap_shard, [(items[k::nsh], q_fresh) for k in range(nsh)])
 
-    n_hist, n_steps = (70, 5) if quick else (500, 8)
+    n_hist, n_steps = (70, 5) if quick else (300, 8)
     specs = []
     base = 1_000_000
     for i in range(n_hist):
@@ -262,7 +262,7 @@ def run(ctx):
     ctx.extra['multibyte_snapshots'] = sum(1 for b, s, v in validated for t in b['traces']
                                            if any(c > 127 for ln in t['text'] for c in ln))
     ctx.require_clauses(NODE_CLAUSES + FIND_CLAUSES)
-    if ctx.extra['snapshots_after_edit'] < (20 if quick else 300):
+    if ctx.extra['snapshots_after_edit'] < (20 if quick else 200):
         raise common.Machinery('vacuity guard: too few after-edit snapshots')
 
 
@@ -270,7 +270,7 @@ def replay(ctx, path):
     with open(path) as f:
         rp = json.load(f)
     if rp['driver'] == 'snapshot':
-        res = [_snap_shard(([(1, rp['kind'], rp['idx'], rp['variant'], rp['seed'])], rp['q']))]
+        res = [_snap_shard(([(rp.get('tid', 1), rp['kind'], rp['idx'], rp['variant'], rp['seed'])], rp['q']))]
     else:
         res = [_hist_shard(([(rp['tid0'], rp['seed'], rp['prog'], rp['variant'], rp['nsteps'])], rp['q']))]
         want = rp['tid0'] + rp['step']
